@@ -141,7 +141,10 @@ func (s *SendStream) write(p []byte) (bool /* is newly completed */, int, error)
 		// This allows us to return Write() when all data but x bytes have been sent out.
 		// When the user now calls Close(), this is much more likely to happen before we popped that last STREAM frame,
 		// allowing us to set the FIN bit on that frame (instead of sending an empty STREAM frame with FIN).
-		if s.canBufferStreamFrame() && len(s.dataForWriting) > 0 {
+		// A Write that is woken up because the stream was shut down or reset must not buffer its data: the
+		// frame that was in its way has just been returned to the pool, so the data would now fit, and the
+		// call would report success for bytes that are never sent instead of the error.
+		if s.shutdownErr == nil && s.resetErr == nil && s.canBufferStreamFrame() && len(s.dataForWriting) > 0 {
 			if s.nextFrame == nil {
 				f := wire.GetStreamFrame()
 				f.Offset = s.writeOffset
